@@ -10,7 +10,19 @@ From LC.Base Require Import Float64.
 From LC.V2 Require Import SSet Match Planted.
 
 Theorem C07_exact_copy_position_independent_partial :
-  ltac:(let t := type of (@planted_potential_match) in exact t).
+  forall (H : list N -> N) (q : nat) (A K B : list N),
+         1 <= q ->
+         q <= length K ->
+         forall src tgt : sset,
+         built_from H q K src ->
+         built_from H q (A ++ K ++ B) tgt ->
+         forall thr : f64,
+         (trunc (fmul (of_Z (Z.of_nat (length K))) thr) <= Z.of_nat (length K))%Z ->
+         exists r : range,
+           In r (find_potential_matches src tgt thr) /\
+           src_start r = 0%N /\
+           src_end r = N.of_nat (length K) /\
+           tgt_start r = N.of_nat (length A) /\
+           tgt_end r = N.of_nat (length A + length K) /\ (N.of_nat (length K) <= claimed r)%N.
 Proof. exact (@planted_potential_match). Qed.
-Check C07_exact_copy_position_independent_partial.
 Print Assumptions C07_exact_copy_position_independent_partial.
